@@ -10,8 +10,8 @@
    the file system (symbolic links, realpath: [fs] is an opaque oracle keyed by the path string); that a
    response is delivered completely (every Send of the model succeeds; write failures and the early
    breaks of httpd.c are exercised only by the correspondence run); any bound on the wall-clock time of one
-   rfbHttpCheckFds - that clause is false for the code (C20_send_time_unbounded, C20_vnc_stall_refuted,
-   findings F20a/F20b); the listener/accept/replace path of rfbHttpCheckFds beyond the flag model. *)
+   rfbHttpCheckFds - that clause is false for the code (C20_send_time_unbounded, finding F20b; F20a
+   fixed by 394d4bb); the listener/accept/replace path of rfbHttpCheckFds beyond the flag model. *)
 From Coq Require Import ZArith List Bool.
 From LV Require Import Gen.Consts_C20 Httpd.HttpdDefs Httpd.HttpdProofs Httpd.HttpdGate Httpd.HttpdSafe
   Httpd.HttpdBody Httpd.HttpdSubst Httpd.HttpdSend Httpd.HttpdAudit Httpd.HttpdExamples.
@@ -225,8 +225,8 @@ Proof. exact substitution_other_dollar. Qed.
    The full timing clause - "one rfbWriteExact / one rfbHttpCheckFds returns within a bound that depends on
    rfbMaxClientWait only" -
        forall sched ..., exists r t, wx_loop sched timeout slice len 0 0 = Some (r, t) /\ t <= budget timeout slice
-   is NOT proved and is FALSE for the code: C20_send_time_unbounded below (finding F20b), and for one response
-   made of several writes C20_vnc_stall_refuted (finding F20a). *)
+   is NOT proved and is FALSE for the code: C20_send_time_unbounded below (finding F20b).  (For one response made
+   of several writes it was false in a second way before 394d4bb: C20_vnc_stall_prefix_refuted, finding F20a.) *)
 Theorem C20_send_bounded_per_period : forall sched timeout slice len waited total,
   0 < slice -> 0 <= waited -> (waited < timeout \/ waited = 0) ->
   exists r t, wx_loop sched timeout slice len waited total = Some (r, t) /\
@@ -248,17 +248,18 @@ Theorem C20_send_time_unbounded : forall timeout slice n,
   exists sched, wx_loop sched timeout slice (Z.of_nat n) 0 0 = Some (WOk, Z.of_nat n * slice).
 Proof. exact send_time_unbounded. Qed.
 
-(* refutation for one response (F20a): httpd.c ignores the result of the writes of the .vnc substitution loop
-   (text before a variable, the variable's value) - only the write of a literal '$' is checked.  Counting the
-   rfbWriteExact calls that are still made after the peer has stopped reading (each waits rfbMaxClientWait):
-   the witness page "x$HEIGHTx$WIDTHx" gives 5, with notes/fix_C20_3.diff (stop at the first failure) it is
-   at most 1 for every page *)
-Theorem C20_vnc_stall_refuted :
+(* one response made of several writes (F20a, fixed by 394d4bb): since that commit httpd.c writes nothing more after
+   the first failed rfbWriteExact of a response (httpWrite), so the number of rfbWriteExact calls that wait for a peer
+   that has stopped reading is at most 1 for every page and every configuration ... *)
+Theorem C20_vnc_stall_bounded : forall checks, (blocked_writes true checks <= 1)%nat.
+Proof. exact vnc_stall_fixed. Qed.
+
+(* ... regression witness for the flow before 394d4bb, which ignored the results of the writes of the .vnc substitution
+   loop (text before a variable, the variable's value): the page "x$HEIGHTx$WIDTHx" made it wait 5 times
+   (corpus/C20/f20a_vnc_dead_client.script) *)
+Theorem C20_vnc_stall_prefix_refuted :
   blocked_writes false (subst_checks 100 (cfg_w false) [] [120;36;72;69;73;71;72;84;120;36;87;73;68;84;72;120]) = 5%nat.
 Proof. exact vnc_stall_w. Qed.
-
-Theorem C20_vnc_stall_fixed : forall checks, (blocked_writes true checks <= 1)%nat.
-Proof. exact vnc_stall_fixed. Qed.
 
 Theorem C20_send_slice_is_select_timeout : C20_WX_SLICE_MS = C20_WX_TV_SEC * 1000 /\ 0 < C20_WX_SLICE_MS.
 Proof. exact slice_is_select_timeout. Qed.
